@@ -8,6 +8,7 @@ CONSTANTS
   ClVals = {1, 3}
   ChunkIds = {1, 2}
   MaxBody = 100
+  Prune = FALSE
   MaxHdr = 100
   L = 3
 CONSTRAINT GenBound
